@@ -16,7 +16,7 @@ ASSUMPTIONS = [
     "atoms inside one descriptor are pairwise distinct (placeholders may repeat)",
     "only same-class comparisons are asserted",
 ]
-BUDGET = {"quick": 120, "thorough": 900}
+BUDGET = {"quick": 600, "thorough": 900}
 CHUNK = 1
 
 
